@@ -17,7 +17,7 @@ VERIF = os.path.dirname(os.path.dirname(os.path.abspath(__file__)))
 REPO = os.environ.get('VERIF_REPO', '/repo')
 SPEC = os.path.join(VERIF, 'spec')
 BUILD = os.environ.get('VERIF_BUILD', os.path.join(VERIF, 'build'))
-EVID = os.path.join(VERIF, 'evidence')
+EVID = os.environ.get('VERIF_EVID', os.path.join(VERIF, 'evidence'))
 PY = '/venv/bin/python'
 NCPU = int(os.environ.get('VERIF_WORKERS', str(min(16, os.cpu_count() or 4))))
 TLA_CP = '/opt/veriftools/tla/tla2tools.jar:/opt/veriftools/tla/CommunityModules-deps.jar'
@@ -327,7 +327,7 @@ class Verdict(object):
             self.known_hits[f['id']] = self.known_hits.get(f['id'], 0) + 1
             return 'known'
         h = hashlib.sha1(json.dumps(sig, sort_keys=True, default=str).encode()).hexdigest()[:12]
-        rp = os.path.join('evidence', 'replays', self.pid, h + '.json')
+        rp = os.path.join(os.path.relpath(EVID, VERIF) if EVID.startswith(VERIF) else EVID, 'replays', self.pid, h + '.json')
         os.makedirs(os.path.join(VERIF, os.path.dirname(rp)), exist_ok=True)
         with open(os.path.join(VERIF, rp), 'w') as fh:
             json.dump({'property': self.pid, 'signature': sig, 'message': message,
